@@ -86,17 +86,109 @@ theorem gather_names : ∀ (cs : List (String × α)) (seen : List String),
           intro hs
           exact this.1 (List.mem_cons_of_mem _ hs)
 
+/-! ## the sort of a page's anchors by name -/
+
+theorem insertByName_perm (x : String × α) : ∀ l : List (String × α), (insertByName x l).Perm (x :: l) := by
+  intro l
+  induction l with
+  | nil => simp [insertByName]
+  | cons y ys ih =>
+    by_cases h : x.1 < y.1
+    · simp [insertByName, h]
+    · simp only [insertByName, h, if_false]
+      exact (List.Perm.cons y ih).trans (List.Perm.swap x y ys)
+
+theorem sortByName_perm : ∀ l : List (String × α), (sortByName l).Perm l := by
+  intro l
+  induction l with
+  | nil => simp [sortByName]
+  | cons x xs ih => exact (insertByName_perm x _).trans (List.Perm.cons x ih)
+
+theorem insertByName_sorted (x : String × α) : ∀ l : List (String × α), l.Pairwise (fun a b => a.1 ≤ b.1) →
+    (insertByName x l).Pairwise (fun a b => a.1 ≤ b.1) := by
+  intro l
+  induction l with
+  | nil => intro _; simp [insertByName]
+  | cons y ys ih =>
+    intro hs
+    have hy := List.pairwise_cons.mp hs
+    by_cases h : x.1 < y.1
+    · simp only [insertByName, h, if_true]
+      refine List.pairwise_cons.mpr ⟨?_, hs⟩
+      intro a ha
+      simp only [List.mem_cons] at ha
+      rcases ha with rfl | ha
+      · exact Std.le_of_lt h
+      · exact String.le_trans (Std.le_of_lt h) (hy.1 a ha)
+    · simp only [insertByName, h, if_false]
+      refine List.pairwise_cons.mpr ⟨?_, ih hy.2⟩
+      intro a ha
+      have := (insertByName_perm x ys).mem_iff.mp ha
+      simp only [List.mem_cons] at this
+      rcases this with rfl | ha'
+      · exact String.not_lt.mp h
+      · exact hy.1 a ha'
+
+theorem sortByName_sorted : ∀ l : List (String × α), (sortByName l).Pairwise (fun a b => a.1 ≤ b.1) := by
+  intro l
+  induction l with
+  | nil => simp [sortByName]
+  | cons x xs ih => exact insertByName_sorted x _ ih
+
+/-- inserting an entry whose name is new does not change which entry a name gets -/
+theorem findName_insert (n : String) (x : String × α) : ∀ l : List (String × α), x.1 ∉ l.map (·.1) →
+    findName n (insertByName x l) = findName n (x :: l) := by
+  intro l
+  induction l with
+  | nil => intro _; simp [insertByName]
+  | cons y ys ih =>
+    intro hx
+    have hxy : x.1 ≠ y.1 := by
+      intro h; apply hx; simp [h]
+    have hx' : x.1 ∉ ys.map (·.1) := by
+      intro h; apply hx; simp only [List.map_cons, List.mem_cons]; exact Or.inr h
+    obtain ⟨xn, xa⟩ := x
+    obtain ⟨yn, ya⟩ := y
+    by_cases h : xn < yn
+    · simp [insertByName, h]
+    · simp only [insertByName, h, if_false]
+      rw [findName_cons, ih hx', findName_cons, findName_cons, findName_cons]
+      by_cases h1 : yn = n
+      · subst h1
+        have : ¬ xn = yn := hxy
+        simp [this]
+      · simp [h1]
+
+theorem sortByName_find (n : String) : ∀ l : List (String × α), (l.map (·.1)).Nodup →
+    findName n (sortByName l) = findName n l := by
+  intro l
+  induction l with
+  | nil => intro _; simp [sortByName]
+  | cons x xs ih =>
+    intro hnd
+    simp only [List.map_cons, List.nodup_cons] at hnd
+    simp only [sortByName]
+    rw [findName_insert]
+    · obtain ⟨xn, xa⟩ := x
+      rw [findName_cons, findName_cons, ih hnd.2]
+    · intro hin
+      apply hnd.1
+      exact ((sortByName_perm xs).map (·.1)).mem_iff.mp hin
+
 /-- pagedAnchors: which entry a name gets -/
 theorem paged_find : ∀ (ps : List (List (String × α))) (seen : List String) (n : String),
+    (∀ p ∈ ps, (p.map (·.1)).Nodup) →
     findName n (pagedAnchors seen ps).flatten = if n ∈ seen then none else findName n ps.flatten := by
   intro ps
   induction ps with
-  | nil => intro seen n; simp [pagedAnchors, findName]
+  | nil => intro seen n _; simp [pagedAnchors, findName]
   | cons p ps ih =>
-    intro seen n
+    intro seen n hnd
+    have hp : (p.map (·.1)).Nodup := hnd p (by simp)
     simp only [pagedAnchors, List.flatten_cons]
-    rw [findName_append, findName_append, ih]
-    have hf : findName n (p.filter (fun x => !seen.contains x.1)) = if n ∈ seen then none else findName n p := by
+    rw [findName_append, findName_append, ih _ _ (fun q hq => hnd q (by simp [hq]))]
+    have hf : findName n ((sortByName p).filter (fun x => !seen.contains x.1)) = if n ∈ seen then none else findName n p := by
+      rw [← sortByName_find n p hp]
       simp only [findName, List.find?_filter]
       by_cases hs : n ∈ seen
       · simp only [hs, if_true]
@@ -119,13 +211,14 @@ theorem paged_find : ∀ (ps : List (List (String × α))) (seen : List String) 
       | some y => simp
       | none =>
         simp only [Option.none_or]
-        have hcur : n ∉ (p.filter (fun x => !seen.contains x.1)).map (·.1) := by
+        have hcur : n ∉ ((sortByName p).filter (fun x => !seen.contains x.1)).map (·.1) := by
           intro hin
           simp only [List.mem_map, List.mem_filter] at hin
           obtain ⟨x, ⟨hxp, _⟩, hxn⟩ := hin
-          have := List.find?_eq_none.mp hfp x hxp
+          have hxp' : x ∈ p := (sortByName_perm p).mem_iff.mp hxp
+          have := List.find?_eq_none.mp hfp x hxp'
           simp [hxn] at this
-        have hnot : ¬ n ∈ ((p.filter (fun x => !seen.contains x.1)).map (·.1) ++ seen) := by
+        have hnot : ¬ n ∈ (((sortByName p).filter (fun x => !seen.contains x.1)).map (·.1) ++ seen) := by
           simp only [List.mem_append, not_or]; exact ⟨hcur, hs⟩
         rw [if_neg hnot]
 
@@ -139,9 +232,10 @@ theorem paged_names : ∀ (ps : List (List (String × α))) (seen : List String)
     intro seen hnd
     simp only [pagedAnchors, List.flatten_cons, List.map_append]
     have hp : (p.map (·.1)).Nodup := hnd p (by simp)
-    obtain ⟨h1, h2⟩ := ih ((p.filter (fun x => !seen.contains x.1)).map (·.1) ++ seen) (fun q hq => hnd q (by simp [hq]))
-    have hcur : ((p.filter (fun x => !seen.contains x.1)).map (·.1)).Nodup :=
-      (List.Sublist.map _ List.filter_sublist).nodup hp
+    have hsp : ((sortByName p).map (·.1)).Nodup := ((sortByName_perm p).map (·.1)).nodup_iff.mpr hp
+    obtain ⟨h1, h2⟩ := ih (((sortByName p).filter (fun x => !seen.contains x.1)).map (·.1) ++ seen) (fun q hq => hnd q (by simp [hq]))
+    have hcur : (((sortByName p).filter (fun x => !seen.contains x.1)).map (·.1)).Nodup :=
+      (List.Sublist.map _ List.filter_sublist).nodup hsp
     refine ⟨?_, ?_⟩
     · rw [List.nodup_append]
       refine ⟨hcur, h1, ?_⟩
@@ -157,21 +251,47 @@ theorem paged_names : ∀ (ps : List (List (String × α))) (seen : List String)
       · intro hs
         exact (h2 n hn) (List.mem_append_right _ hs)
 
-theorem paged_sublist : ∀ (ps : List (List (String × α))) (seen : List String),
+/-- page lists correspond one to one; every listed anchor is an entry of that page's map; every page list
+    is in non-decreasing name order -/
+theorem paged_subset : ∀ (ps : List (List (String × α))) (seen : List String),
     (pagedAnchors seen ps).length = ps.length ∧
-    ∀ x ∈ List.zip (pagedAnchors seen ps) ps, x.1.Sublist x.2 := by
+    ∀ x ∈ List.zip (pagedAnchors seen ps) ps, (∀ a ∈ x.1, a ∈ x.2) ∧ x.1.Pairwise (fun a b => a.1 ≤ b.1) := by
   intro ps
   induction ps with
   | nil => intro seen; simp [pagedAnchors]
   | cons p ps ih =>
     intro seen
     simp only [pagedAnchors, List.length_cons, List.zip_cons_cons, List.mem_cons]
-    obtain ⟨h1, h2⟩ := ih ((p.filter (fun x => !seen.contains x.1)).map (·.1) ++ seen)
+    obtain ⟨h1, h2⟩ := ih (((sortByName p).filter (fun x => !seen.contains x.1)).map (·.1) ++ seen)
     refine ⟨by omega, ?_⟩
     intro x hx
     rcases hx with rfl | hx
-    · exact List.filter_sublist
+    · refine ⟨?_, (sortByName_sorted p).sublist List.filter_sublist⟩
+      intro a ha
+      exact (sortByName_perm p).mem_iff.mp (List.mem_filter.mp ha).1
     · exact h2 x hx
+
+/-- with page maps (unique names inside a page) every page list is in strictly increasing name order -/
+theorem paged_strict : ∀ (ps : List (List (String × α))) (seen : List String),
+    (∀ p ∈ ps, (p.map (·.1)).Nodup) →
+    ∀ x ∈ pagedAnchors seen ps, x.Pairwise (fun a b => a.1 < b.1) := by
+  intro ps
+  induction ps with
+  | nil => intro seen _ x hx; simp [pagedAnchors] at hx
+  | cons p ps ih =>
+    intro seen hnd x hx
+    simp only [pagedAnchors, List.mem_cons] at hx
+    rcases hx with rfl | hx
+    · have hp : (p.map (·.1)).Nodup := hnd p (by simp)
+      have hsp : ((sortByName p).map (·.1)).Nodup := ((sortByName_perm p).map (·.1)).nodup_iff.mpr hp
+      have hcur : (((sortByName p).filter (fun x => !seen.contains x.1)).map (·.1)).Nodup :=
+        (List.Sublist.map _ List.filter_sublist).nodup hsp
+      have hne : ((sortByName p).filter (fun x => !seen.contains x.1)).Pairwise (fun a b => a.1 ≠ b.1) := by
+        rw [List.nodup_iff_pairwise_ne, List.pairwise_map] at hcur
+        exact hcur
+      have hle := (sortByName_sorted p).sublist (List.filter_sublist (p := fun x => !seen.contains x.1))
+      exact (hle.and hne).imp (fun h => Std.lt_of_le_of_ne h.1 h.2)
+    · exact ih _ (fun q hq => hnd q (by simp [hq])) x hx
 
 theorem flatten_pageAnchors_find : ∀ (cands : List (List (String × α))) (n : String),
     findName n (cands.map pageAnchors).flatten = if n = "" then none else findName n cands.flatten := by
